@@ -6,7 +6,7 @@
  *   info                                           -> ok <compile-options-hex> <newline-convention> <pcre2-version>
  *   grid <pat-hex> <inv> <alphabet-hex> <maxlen> <s3> <s4> <salt> <xpfail>
  *                                                  -> ok <r1> <r2> <r3> <r4>
- *   matchn <pat-hex> <inv> <str-hex>...            -> ok <r1> <r2> <r3> <r4>
+ *   matchn <pat-hex> <inv> <str-hex>...            -> ok <r1> <r2> <r3> <r4>      (r4 on every 8th string)
  *   rawgrid <pcre-hex> <nl> <alphabet-hex> <maxlen>-> ok <bits> | err Compile
  *   rawn <pcre-hex> <nl> <str-hex>...              -> ok <bits> | err Compile
  *   leak                                           -> ok <0|1>
@@ -455,7 +455,7 @@ main(void)
                 strset_push(&S, s, n); free(s);
             }
             if (bad) vp_reply(id, "err BadHex");
-            else run_routes(id, p, atoi(r.tok[4]), &S, 1, 1, 0, 0);
+            else run_routes(id, p, atoi(r.tok[4]), &S, 1, 8, 0, 0);      /* yangre on every 8th string */
             strset_free(&S); free(p);
         } else if (!strcmp(op, "rawgrid") && r.ntok == 7) {
             size_t alen; char *p = vp_unhex(r.tok[3], NULL), *a = vp_unhex(r.tok[5], &alen);
